@@ -79,7 +79,49 @@ def _bool_contexts(f: Func):
             yield n, n
 
 
-@rule("FALSY", ["C02", "C04", "C09"], floor=6, section="3.9")
+def _entry_id_truth(f: Func):
+    """(tested expr, True) for every truth-tested read of an entry's "data_id" (`e.get("data_id")`, `e["data_id"]`, or the same
+    through a key variable that ranges over a literal sequence naming "data_id"); (read, False) for reads that are not truth-tested."""
+    keyvars: Dict[str, bool] = {}
+    for n in iter_own(f.node):
+        it = tg = None
+        if isinstance(n, ast.comprehension) or isinstance(n, ast.For):
+            it, tg = n.iter, n.target
+        if isinstance(it, (ast.Tuple, ast.List, ast.Set)) and isinstance(tg, ast.Name) and any(
+                isinstance(e, ast.Constant) and e.value == "data_id" for e in it.elts):
+            keyvars[tg.id] = True
+
+    def is_key(k: ast.AST) -> bool:
+        return (isinstance(k, ast.Constant) and k.value == "data_id") or (isinstance(k, ast.Name) and k.id in keyvars)
+
+    def is_read(e: ast.AST) -> bool:
+        if isinstance(e, ast.Call) and isinstance(e.func, ast.Attribute) and e.func.attr == "get" and len(e.args) == 1 and is_key(e.args[0]):
+            return True
+        return isinstance(e, ast.Subscript) and isinstance(e.ctx, ast.Load) and is_key(e.slice)
+
+    def tested(t: ast.AST):
+        if is_read(t):
+            yield t
+        elif isinstance(t, ast.BoolOp):
+            for v in t.values:
+                yield from tested(v)
+        elif isinstance(t, ast.UnaryOp) and isinstance(t.op, ast.Not):
+            yield from tested(t.operand)
+        elif isinstance(t, ast.Call) and isinstance(t.func, ast.Name) and t.func.id == "bool" and t.args:
+            yield from tested(t.args[0])
+
+    bad = set()
+    for _c, test in _bool_contexts(f):
+        for e in tested(test):
+            if id(e) not in bad:
+                bad.add(id(e))
+                yield e, True
+    for n in iter_own(f.node):
+        if is_read(n) and id(n) not in bad:
+            yield n, False
+
+
+@rule("FALSY", ["C02", "C04", "C09", "C14", "C05", "C12"], floor=6, section="3.9")
 def falsy(ctx: Ctx) -> List[Ob]:
     """data objects and data_ids are never tested by truthiness (0, "", () and data_id 0 are ordinary values); presence is tested with `is None`"""
     obs: List[Ob] = []
@@ -114,6 +156,21 @@ def falsy(ctx: Ctx) -> List[Ob]:
                     continue
                 seen.add(key)
                 obs.append(ctx.ob("FALSY", props, f, norm(n), n, True))
+    # stored entries: the optional "data_id" of a dict entry is present-or-absent, never truthy-or-falsy (a custom data_id 0 / "" is a value)
+    for f in ctx.model.all_funcs():
+        if f.module not in ("node", "tree", "typed_tree"):
+            continue
+        for e, is_tested in _entry_id_truth(f):
+            props = ["C14", "C02"] if "from_dict" in f.qualname else ["C05", "C12", "C02"]
+            key = (f.site, "entry", norm(e), is_tested)
+            if key in seen:
+                continue
+            seen.add(key)
+            if is_tested:
+                obs.append(ctx.ob("FALSY", props, f, f"truthiness of the stored entry's `{norm(e)}`", e, False,
+                                  "an entry's optional data_id is dropped when it is falsy: a custom data_id 0 / '' does not survive the reader"))
+            else:
+                obs.append(ctx.ob("FALSY", props, f, f"entry read `{norm(e)}` is not truth-tested", e, True))
     return obs
 
 
